@@ -75,6 +75,7 @@ OppositeFace(D, u, v, f) == LET a == DirectFace(D, u, v)
                             IN IF f = a THEN b ELSE IF f = b THEN a ELSE None
 IsEdge(D, u, v)   == Key(u, v) \in D.ES
 EdgeId(D, u, v)   == IF Key(u, v) \in DOMAIN D.eid THEN D.eid[Key(u, v)] ELSE None
+IsInteriorEdge(D, u, v) == HasHE(D, u, v) /\ HasHE(D, v, u)
 IsBorderEdge(D, u, v) == IsEdge(D, u, v) /\ (~HasHE(D, u, v) \/ ~HasHE(D, v, u))
 BorderVerts(D)    == UNION { {k[1], k[2]} : k \in { d \in D.DE : ~HasHE(D, d[2], d[1]) } }
 SharedEdges(D, f, g) == { Key(h.v, h.nx) : h \in { x \in D.H : x.f = f /\ DirectFace(D, x.nx, x.v) = g } }
